@@ -9,7 +9,7 @@ for l in open(path, errors="replace"):
     if len(f) >= 4 and f[0].startswith("C"):
         res[f[0]] = dict(prop=f[1], rc=f[2], secs=f[3], msg=(f[4] if len(f) > 4 else "").strip())
 rows = []
-for sid in sorted(os.listdir("/verif/seeded")):
+for sid in sorted(x for x in os.listdir("/verif/seeded") if not x.startswith("_")):
     mp = f"/verif/seeded/{sid}/meta.json"
     m = json.load(open(mp))
     r = res.get(sid)
